@@ -33,7 +33,18 @@ def canon(x, actions=None):
     if hasattr(x, "__iter__"):
         try: return [canon(v) for v in x]
         except Exception: pass
+    if hasattr(x, "__len__") and hasattr(x, "__getitem__"):      # rows without __iter__ (e.g. the dense view of a sparse row)
+        try: return [canon(x[i]) for i in range(len(x))]
+        except Exception: pass
     return repr(x)
+
+
+class PmfLearner:
+    """A logging policy that answers with a PMF: the action is then drawn by the caller's generator (seeded with the log seed)."""
+    @property
+    def params(self): return {"family": "pmf"}
+    def predict(self, context, actions): return [(i + 1) / (len(actions) * (len(actions) + 1) / 2) for i in range(len(actions))]
+    def learn(self, *a, **k): pass
 
 
 # ---------------------------------------------------------------- catalogue
@@ -79,6 +90,9 @@ STEPS = {
     "noise": lambda e: e.noise(context=(0, .1), seed=3), "cache": lambda e: e.cache(), "chunk": lambda e: e.chunk(), "materialize": lambda e: e.materialize(), "ope": lambda e: e.ope_rewards("IPS"),
     "logged": lambda e: e.logged(__import__("coba").learners.RandomLearner(), seed=1.5),
     "grounded": lambda e: e.grounded(5, 3, 4, 2, seed=1),
+    # the seed 0 (falsy in Python, as good a seed as any other) for every seeded step
+    "reservoir0": lambda e: e.reservoir(20, seeds=0), "noise0": lambda e: e.noise(context=(0, .1), seed=0), "riffle0": lambda e: e.riffle(3, seed=0),
+    "logged0": lambda e: e.logged(PmfLearner(), seed=0), "loggedp": lambda e: e.logged(PmfLearner(), seed=3), "grounded0": lambda e: e.grounded(5, 3, 4, 2, seed=0),
 }
 WRAPS = ["cache", "chunk", "materialize"]
 
@@ -92,6 +106,7 @@ def pipelines(tmp, rng, count):
              ("sup-seq", []), ("sup-seq", ["cache"]), ("sup-csv", ["shuffle7"]), ("sup-arff", ["scale"]), ("linear", ["dense-l"]), ("linear", ["sparse", "dense-l", "cache"]),
              ("lambda", ["batch3", "cache"]), ("neighbors", ["materialize"]), ("kernel", ["reservoir", "chunk"]), ("bandit", ["cycle5", "cache"]), ("linear", ["logged", "shuffle7", "chunk"]),
              ("lambda-sparse", ["dense-l"]), ("lambda-sparse", ["dense-l", "take30"]), ("lambda-sparse", ["shuffle7", "dense-h"]), ("lambda-sparse", ["scale0", "cache"]),
+             ("lambda", ["logged0"]), ("lambda", ["logged0", "shuffle0", "cache"]), ("linear", ["noise0", "riffle0"]), ("linear", ["reservoir0", "chunk"]), ("linear-2", ["grounded0"]),
              ("sup-arff2", ["repr", "materialize"]), ("sup-2cls", ["repr", "cache"]), ("linear-2", ["grounded", "materialize"]), ("linear-2", ["repr", "shuffle7", "materialize"])]
     chains = list(fixed)
     while len(chains) < count:
@@ -139,12 +154,15 @@ def run(ctx):
             ref_env = factory(); ref = [canon(i) for i in ref_env.read()]; ref_params = canon(dict(ref_env.params))
             again = [canon(i) for i in factory().read()]
         except Exception as e:
-            if pipes.index((desc, factory)) < 24:     # the curated pipelines are type-compatible by construction
+            if pipes.index((desc, factory)) < 29:     # the curated pipelines are type-compatible by construction
                 ctx.violation("curated:first-read-raises", "a fresh %s cannot be read even once: %s: %s" % (desc, type(e).__name__, str(e)[:150]), dict(pipeline=desc))
             skipped += 1; continue            # not a type-compatible chain: a fresh object cannot even be read once
         if again != ref:
-            skipped += 1; continue            # not deterministic by construction (time-seeded component): outside the property
-        nh = per if pipes.index((desc, factory)) >= 24 else min(len(hists), 4 * per)      # the curated pipelines get four times as many histories
+            # every component of the catalogue is seeded (None, the time-seeded default, is never passed): two fresh identical
+            # pipelines must read alike
+            ctx.violation("fresh-reads-differ", "two freshly built identical pipelines yield different sequences%s  pipeline=%s" % (_first(again, ref), desc), dict(pipeline=desc))
+            skipped += 1; continue
+        nh = per if pipes.index((desc, factory)) >= 29 else min(len(hists), 4 * per)      # the curated pipelines get four times as many histories
         for h in (hists if nh >= len(hists) else rng.sample(hists, nh)):
             ctx.case(json.dumps([desc, h]))
             bad = replay(factory, h, ref, ref_params)
@@ -188,7 +206,7 @@ def run(ctx):
     ctx.extra["shared_prefix_cases"] = nshared
     # save()/from_save(): the saved form read repeatedly
     from coba.environments import Environments
-    for desc, factory in pipes[:ctx.pick(6, 30)] + [p for p in pipes[20:24]]:
+    for desc, factory in pipes[:ctx.pick(6, 30)] + [p for p in pipes[20:29]]:
         try:
             ref = [canon(i) for i in factory().read()]
             f = os.path.join(tmp, "sv.zip")
